@@ -2,6 +2,7 @@ package engines
 
 import (
 	"fmt"
+	"os"
 
 	"github.com/dop251/goja"
 )
@@ -13,32 +14,32 @@ import (
 // ---- frame kinds -------------------------------------------------------------------------------------------------
 
 const (
-	cjPlain   = iota // function fK(){ return next(); }
-	cjRethrow        // try { return next(); } catch (e) { C(K,e); throw e; }
-	cjFinally        // try { ... } finally { F(K,ok); }
-	cjBoth           // try { ... } catch (e) { C(K,e); throw e; } finally { F(K,ok); }
-	cjSwallow        // catch (e) { C(K,e); return "swallowed-K"; }
-	cjWrap           // catch (e) { C(K,e); throw new Error("wrap-K", {cause: e}); }
-	cjGetter         // next() is called inside a getter
-	cjProxy          // next() is called inside a JS Proxy get trap
-	cjGen            // next() is called inside a generator body (sel: for-of / .next() / spread)
-	cjJob            // next() is called in a promise job / executor / async function (sel), with .catch(e => C(K,e))
-	cjEval           // eval("next()")
-	cjClass          // new (class { constructor(){ this.v = next(); } })
-	cnFunc           // func(FunctionCall) Value; AssertFunction(next); panic(err)
-	cnReflect        // func() (Value, error); returns err as is
-	cnReflectWrap    // func() (Value, error); returns fmt.Errorf("ctx: %w", err)
-	cnReflectNoErr   // func() Value; panic(err)
-	cnCtor           // func(ConstructorCall) *Object, called from script with new
-	cnExportErr      // ExportTo(next, &func() (Value, error)); returns the error as is (reflect style)
-	cnExportPanic    // ExportTo(next, &func() Value): the gateway panics on exceptions
-	cnTryGet         // rt.Try(func(){ v = obj.Get("x") }) over a script getter; panic(ex)
-	cnForOf          // rt.Try(func(){ rt.ForOf(iterable, ...) }) over a script iterator; panic(ex)
-	cnProxyCfg       // rt.NewProxy(target, &ProxyTrapConfig{Get: ...}) read from script
-	cnDynamic        // rt.NewDynamicObject(d) whose Get calls next, read from script
-	cnSwallow        // host swallows *Exception (returns a marker), propagates everything else
-	cnCtorReenter    // AssertConstructor(script constructor calling next); panic(err)
-	cnRunProgram     // nested rt.RunString("next()"); panic(err)
+	cjPlain        = iota // function fK(){ return next(); }
+	cjRethrow             // try { return next(); } catch (e) { C(K,e); throw e; }
+	cjFinally             // try { ... } finally { F(K,ok); }
+	cjBoth                // try { ... } catch (e) { C(K,e); throw e; } finally { F(K,ok); }
+	cjSwallow             // catch (e) { C(K,e); return "swallowed-K"; }
+	cjWrap                // catch (e) { C(K,e); throw new Error("wrap-K", {cause: e}); }
+	cjGetter              // next() is called inside a getter
+	cjProxy               // next() is called inside a JS Proxy get trap
+	cjGen                 // next() is called inside a generator body (sel: for-of / .next() / spread)
+	cjJob                 // next() is called in a promise job / executor / async function (sel), with .catch(e => C(K,e))
+	cjEval                // eval("next()")
+	cjClass               // new (class { constructor(){ this.v = next(); } })
+	cnFunc                // func(FunctionCall) Value; AssertFunction(next); panic(err)
+	cnReflect             // func() (Value, error); returns err as is
+	cnReflectWrap         // func() (Value, error); returns fmt.Errorf("ctx: %w", err)
+	cnReflectNoErr        // func() Value; panic(err)
+	cnCtor                // func(ConstructorCall) *Object, called from script with new
+	cnExportErr           // ExportTo(next, &func() (Value, error)); returns the error as is (reflect style)
+	cnExportPanic         // ExportTo(next, &func() Value): the gateway panics on exceptions
+	cnTryGet              // rt.Try(func(){ v = obj.Get("x") }) over a script getter; panic(ex)
+	cnForOf               // rt.Try(func(){ rt.ForOf(iterable, ...) }) over a script iterator; panic(ex)
+	cnProxyCfg            // rt.NewProxy(target, &ProxyTrapConfig{Get: ...}) read from script
+	cnDynamic             // rt.NewDynamicObject(d) whose Get calls next, read from script
+	cnSwallow             // host swallows *Exception (returns a marker), propagates everything else
+	cnCtorReenter         // AssertConstructor(script constructor calling next); panic(err)
+	cnRunProgram          // nested rt.RunString("next()"); panic(err)
 	nChainKinds
 )
 
@@ -59,6 +60,8 @@ var chKindTable = [...]int{cjPlain, cjRethrow, cjFinally, cjBoth, cjSwallow, cjW
 
 func chIsNative(k int) bool { return k >= cnFunc }
 
+var chStrictForOf = os.Getenv("VERIF_C14_FOROF_STACK") != "0" // goja repaired (commit 941aac2): asserted by default
+
 type chFrame struct {
 	kind, sel int
 }
@@ -71,6 +74,15 @@ const (
 	jobAsyncSync         // (async function(){ return next(); })()     next runs synchronously
 	jobAsyncAwait        // (async function(){ await null; return next(); })()
 	nJobSel
+)
+
+// cjGen variants (sel): who drives the generator
+const (
+	genForOf = iota
+	genNext
+	genSpread
+	genDestructure
+	nGenSel
 )
 
 // jobSync: the frame below a promise frame runs synchronously inside the frame (executor, async function before its first
@@ -208,6 +220,7 @@ type chState struct {
 	p         *chPay
 	strictTop bool // Stack()[0] must be the raising script function at its line
 	someTop   bool // Stack() must be non-empty
+	topIfAny  bool // ... provided some script code is active where the exception record / Error object is made
 	samePtr   bool // the host must receive the very *Exception the raiser panicked with / returned
 }
 
@@ -221,7 +234,7 @@ type chModel struct {
 	segOf    []int    // segment of the synchronous events of frame K (index n+1: the raiser)
 
 	crossRethrow, crossFinally, swallowJS, swallowHost, crossJob, crossProxy, crossDynamic, crossCtor, crossExport bool
-	wrappedTwice, crossCatchOrFinally                                                                             bool
+	wrappedTwice, crossCatchOrFinally                                                                              bool
 }
 
 func (m *chModel) ev(seg int, f string, a ...interface{}) {
@@ -243,6 +256,25 @@ func chSegments(frames []chFrame) []int {
 	return seg
 }
 
+// chScriptActive: is any script code (a script frame, a getter / iterator / constructor / nested program a native frame
+// goes through, the entry program) active while frame k runs? If not, goja has no frame to put into a stack trace made
+// there: native functions entered directly from Go are not on its call stack. Relaxation: "a stack whose top frame names
+// the throw site" is asserted as "non-empty stack" only when this holds.
+func chScriptActive(frames []chFrame, entry, k int) bool {
+	for j := k - 1; j >= 1; j-- {
+		f := frames[j-1]
+		if f.kind == cjJob && !f.jobSync() {
+			return f.sel%nJobSel != jobThenDirect
+		}
+		switch f.kind {
+		case cnFunc, cnReflect, cnReflectWrap, cnReflectNoErr, cnExportErr, cnExportPanic, cnSwallow:
+		default:
+			return true
+		}
+	}
+	return entry == ceRunProgram || entry == ceConstructor || entry == ceTryGet
+}
+
 // chPredict runs the transfer model. root is the state the raiser produces (csNormal "ok" when nothing is raised).
 func chPredict(frames []chFrame, entry int, root chState) *chModel {
 	n := len(frames)
@@ -256,6 +288,9 @@ func chPredict(frames []chFrame, entry int, root chState) *chModel {
 	m.ev(m.segOf[n+1], "R")
 	// way out
 	s := root
+	if s.topIfAny && chScriptActive(frames, entry, n+1) {
+		s.someTop = true
+	}
 	for k := n; k >= 1; k-- {
 		m.in[k] = s
 		f := frames[k-1]
@@ -352,7 +387,7 @@ func chPredict(frames []chFrame, entry int, root chState) *chModel {
 					m.wrappedTwice = true
 				}
 				m.made[k] = q
-				s = chState{kind: csThrow, p: q, someTop: true}
+				s = chState{kind: csThrow, p: q, someTop: chScriptActive(frames, entry, k)}
 			}
 			// csUncatch: stays uncatchable through the %w wrapper; csForeign: flies through
 		case cnExportErr:
@@ -362,13 +397,20 @@ func chPredict(frames []chFrame, entry int, root chState) *chModel {
 				q := &chPay{kind: pkGoError, class: "[Error]", hasGo: true, goErr: s.p.goErr, isA: s.p.isA, isB: s.p.isB, asCustom: s.p.asCustom,
 					spine: s.p.spine, nwraps: s.p.nwraps}
 				m.made[k] = q
-				s = chState{kind: csThrow, p: q, someTop: true}
+				s = chState{kind: csThrow, p: q, someTop: chScriptActive(frames, entry, k)}
 			}
 		case cnSwallow:
 			if catchable {
 				m.ev(seg, "S%d(%s)", k, s.p.class)
 				m.swallowHost = true
 				s = chState{kind: csNormal, normal: fmt.Sprintf("host-swallowed-%d", k)}
+			}
+		case cjGen:
+			if v := f.sel % nGenSel; catchable && (v == genForOf || v == genDestructure) && !chStrictForOf {
+				// KNOWN DEVIATION (reported): for-of and array destructuring re-throw the VALUE of an exception raised by the iterator's
+				// next() (vm.throw(ex.val)), so for a non-Error value the stack is re-captured at the loop, not at the throw
+				// site. Not asserted unless VERIF_C14_FOROF_STACK=1.
+				s.strictTop, s.samePtr = false, false
 			}
 		}
 		// every other kind hands the state on unchanged (for csThrow: the same value, the same *Exception)
